@@ -12,33 +12,33 @@ structure PeppiMeta where
   quirks : Option Bool
 
 /-- one tar entry, by the name `read` dispatches on -/
-inductive PEntry (χ : Type) where
+inductive PEntry (μ φ : Type) where
   | peppiJson (r : Res PeppiMeta)          -- `serde_json::from_reader::<Peppi>`
   | startRaw (bytes : Bytes)
   | endRaw (bytes : Bytes)
-  | metadataJson (r : Res (Option χ))      -- `read_peppi_metadata`: object ↦ some, null ↦ none, else error
+  | metadataJson (r : Res (Option μ))      -- `read_peppi_metadata`: object ↦ some, null ↦ none, else error
   | geckoRaw (bytes : Bytes)
-  | framesArrow (magicOk : Bool) (items : List (SItem χ))
+  | framesArrow (magicOk : Bool) (items : List (SItem φ))
   | other                                   -- any other file name: skipped
   | broken                                  -- the tar iterator yields an error for this entry
 
-structure PAcc (χ : Type) where
+structure PAcc (μ : Type) where
   peppi : Option PeppiMeta := none
   start : Option Start := none
   fend : Option End := none
-  metadata : Option χ := none
+  metadata : Option μ := none
   gecko : Option (Bytes × Nat) := none
 
-structure PGame (χ : Type) where
+structure PGame (μ φ : Type) where
   start : Start
   fend : Option End
-  metadata : Option χ
+  metadata : Option μ
   gecko : Option (Bytes × Nat)
-  frames : Option χ              -- `none` = the empty frame set built from the start block
+  frames : Option φ              -- `none` = the empty frame set built from the start block
   hash : Option String
   quirks : Option Bool
 
-def finish {χ : Type} (acc : PAcc χ) (frames : Option χ) : Res (PGame χ) :=
+def finish {μ φ : Type} (acc : PAcc μ) (frames : Option φ) : Res (PGame μ φ) :=
   match acc.peppi with
   | none => .err "missing peppi"
   | some p => match acc.start with
@@ -46,7 +46,7 @@ def finish {χ : Type} (acc : PAcc χ) (frames : Option χ) : Res (PGame χ) :=
     | some s => .ok { start := s, fend := acc.fend, metadata := acc.metadata, gecko := acc.gecko, frames, hash := p.hash, quirks := p.quirks }
 
 /-- the entry loop of `read` -/
-def peppiLoop {χ : Type} (T : TextOracle) (skip : Bool) (trailerOk : Bool) : PAcc χ → List (PEntry χ) → Res (PGame χ)
+def peppiLoop {μ φ : Type} (T : TextOracle) (skip : Bool) (trailerOk : Bool) : PAcc μ → List (PEntry μ φ) → Res (PGame μ φ)
   | acc, [] =>
     -- no `frames.arrow`: zero frames only if the archive is provably complete
     (match acc.peppi, acc.start with
@@ -88,12 +88,12 @@ def peppiLoop {χ : Type} (T : TextOracle) (skip : Bool) (trailerOk : Bool) : PA
          | .err e => .err e
          | .panic s => .panic s)
 
-def peppiRead {χ : Type} (T : TextOracle) (skip trailerOk : Bool) (entries : List (PEntry χ)) : Res (PGame χ) :=
+def peppiRead {μ φ : Type} (T : TextOracle) (skip trailerOk : Bool) (entries : List (PEntry μ φ)) : Res (PGame μ φ) :=
   peppiLoop T skip trailerOk {} entries
 
 /-- **C18 (unknown entries)**: entries with other names, anywhere, do not change the result -/
-theorem peppiLoop_skip_other {χ : Type} (T : TextOracle) (skip trailerOk : Bool) :
-    ∀ (es : List (PEntry χ)) (acc : PAcc χ),
+theorem peppiLoop_skip_other {μ φ : Type} (T : TextOracle) (skip trailerOk : Bool) :
+    ∀ (es : List (PEntry μ φ)) (acc : PAcc μ),
       peppiLoop T skip trailerOk acc es = peppiLoop T skip trailerOk acc (es.filter fun e => match e with | .other => false | _ => true) := by
   intro es
   induction es with
@@ -138,7 +138,7 @@ theorem peppiLoop_skip_other {χ : Type} (T : TextOracle) (skip trailerOk : Bool
       · exact ih _
     | framesArrow m items => simp [List.filter_cons, peppiLoop]
 
-theorem frames_cons {χ : Type} (e : PEntry χ) (es : List (PEntry χ)) (g : PGame χ) (trailerOk : Bool)
+theorem frames_cons {μ φ : Type} (e : PEntry μ φ) (es : List (PEntry μ φ)) (g : PGame μ φ) (trailerOk : Bool)
     (hne : ∀ m items, e ≠ PEntry.framesArrow m items)
     (h : (∃ f pre post, es = pre ++ PEntry.framesArrow true [.chunk f] :: post ∧ g.frames = some f) ∨
          ((∀ m items, PEntry.framesArrow m items ∉ es) ∧ trailerOk = true ∧ g.frames = none)) :
@@ -155,8 +155,8 @@ theorem frames_cons {χ : Type} (e : PEntry χ) (es : List (PEntry χ)) (g : PGa
 
 /-- **C07 (`.slpp`, archive level)**: a game with frames is returned only if the Arrow stream yielded exactly one chunk and
     then ended; a game without a `frames.arrow` entry only if the end-of-archive trailer is complete (or frames are skipped) -/
-theorem peppiLoop_ok {χ : Type} (T : TextOracle) (trailerOk : Bool) :
-    ∀ (es : List (PEntry χ)) (acc : PAcc χ) (g : PGame χ), peppiLoop T false trailerOk acc es = .ok g →
+theorem peppiLoop_ok {μ φ : Type} (T : TextOracle) (trailerOk : Bool) :
+    ∀ (es : List (PEntry μ φ)) (acc : PAcc μ) (g : PGame μ φ), peppiLoop T false trailerOk acc es = .ok g →
       (∃ f pre post, es = pre ++ PEntry.framesArrow true [.chunk f] :: post ∧ g.frames = some f) ∨
       ((∀ m items, PEntry.framesArrow m items ∉ es) ∧ trailerOk = true ∧ g.frames = none) := by
   intro es
